@@ -168,8 +168,18 @@ def api_step(w, which="C13", R=2, events=True):
             px, py = w.real("px"), w.real("py")
             # any(before) => any(after), region by region; a region that is still present with
             # structurally identical geometry discharges its own implication trivially (frame)
-            conds = [alg.implies(_member(w, d, px, py), _any_member(w, after, px, py))
-                     for d in before if not any(_same_region(d, e) is True for e in after)]
+            conds = []
+            for d in before:
+                if any(_same_region(d, e) is True for e in after):
+                    continue
+                full = alg.implies(_member(w, d, px, py), _any_member(w, after, px, py))
+                # sufficient and much cheaper: the region that now carries the same id covers the old one by itself
+                succ = [e for e in after if e["id"] == d["id"]]
+                if succ:
+                    pair = alg.implies(_member(w, d, px, py), _member(w, succ[0], px, py))
+                    if w.holds(pair) is True:
+                        full = pair
+                conds.append(full)
             w.check(alg.and_(*conds) if conds else True, "excluded-point-stays-excluded", desc)
             if COMMANDS[step] == "deleteExcludeRegion":
                 w.check(error, "delete-refused-while-printing", "%s -> %r" % (desc, res))
